@@ -21,6 +21,8 @@ anything but a newline.  Everything else may touch.
   boundary leaves the significant tokens unchanged, provided the gap is itself well separated from
   what follows and the item before it does not run into it — the "two neighbours do not fuse"
   hypothesis, spelled out.
+* `C15_layout`: any two well-separated sources with the same significant items have the same
+  significant tokens (covers a blank inserted next to an existing blank: the two fuse into one run).
 * `C15_case`: changing the letter case of words (keywords, identifiers) keeps every token kind.
 
 All three are over the keyword/operator/final-switch tables regenerated from lexer.go.
@@ -78,6 +80,52 @@ theorem C15_lexer_gap (items1 gap items2 : List Item)
     obtain ⟨g, hg, rfl⟩ := List.mem_map.mp hx
     simp [insignificant_kl g (hins g hg)]
   rw [hg]; simp
+
+/-- no keyword is spelled like a blank or a comment (over the regenerated table) -/
+theorem goKeywords_significant : ∀ p ∈ goKeywords, p.2 ≠ .ws ∧ p.2 ≠ .comment := by decide
+
+theorem kwLookup_significant (w : Bytes) : kwLookup w ≠ .ws ∧ kwLookup w ≠ .comment := by
+  unfold kwLookup
+  cases h : goKeywords.lookup (kwKey w) with
+  | none => simp
+  | some v =>
+    obtain ⟨p, hp, hv⟩ := lookup_mem _ _ _ h
+    simp only [Option.getD_some]; rw [← hv]; exact goKeywords_significant p hp
+
+section
+set_option maxRecDepth 100000
+theorem punctKind_sig : ∀ c : UInt8, (punctKind c).getD .error ≠ .ws ∧ (punctKind c).getD .error ≠ .comment := by
+  apply all_u8; decide
+theorem op2Kind_sig : ∀ c : UInt8, (op2Kind c).getD .error ≠ .ws ∧ (op2Kind c).getD .error ≠ .comment := by
+  apply all_u8; decide
+theorem op1Kind_sig : ∀ c : UInt8, (op1Kind c).getD .error ≠ .ws ∧ (op1Kind c).getD .error ≠ .comment := by
+  apply all_u8; decide
+end
+
+/-- an item's token survives stripping iff the item is not a blank run or a comment -/
+theorem sigKl_item (it : Item) : sigKl it.kl = !it.insignificant := by
+  cases it with
+  | word w => have := kwLookup_significant w; simp [sigKl, Item.kl, Item.kind, Item.insignificant, this.1, this.2]
+  | punct c => have := punctKind_sig c; simp [sigKl, Item.kl, Item.kind, Item.insignificant, this.1, this.2]
+  | op2 c => have := op2Kind_sig c; simp [sigKl, Item.kl, Item.kind, Item.insignificant, this.1, this.2]
+  | op1 c => have := op1Kind_sig c; simp [sigKl, Item.kl, Item.kind, Item.insignificant, this.1, this.2]
+  | _ => simp [sigKl, Item.kl, Item.kind, Item.insignificant]
+
+/-- **C15, layout independence (lexer), general form.**  Two well-separated sources with the same
+significant items — however blanks, line comments and block comments are distributed between them —
+have the same significant tokens. -/
+theorem C15_layout (a b : List Item) (ha : WellSep [] a) (hb : WellSep [] b)
+    (h : a.filter (fun it => !it.insignificant) = b.filter (fun it => !it.insignificant)) :
+    significant (lex (renderItems a)) = significant (lex (renderItems b)) := by
+  rw [significant_items _ ha, significant_items _ hb]
+  have key : ∀ l : List Item, (l.map Item.kl).filter sigKl = (l.filter (fun it => !it.insignificant)).map Item.kl := by
+    intro l
+    rw [List.filter_map]
+    congr 1
+    apply List.filter_congr
+    intro x _
+    simp [Function.comp, sigKl_item]
+  rw [key a, key b, h]
 
 /-- the items before the gap see only its first character: if the item in front of the gap does not
 run into the gap, `hleft` of `C15_lexer_gap` follows from the well-separatedness of the original -/
@@ -257,4 +305,5 @@ end Vore.Lex
 #print axioms Vore.Lex.C15_lex_items
 #print axioms Vore.Lex.C15_lexer_gap
 #print axioms Vore.Lex.C15_case
+#print axioms Vore.Lex.C15_layout
 #print axioms Vore.Lex.wellSep_caseVar
